@@ -29,7 +29,10 @@ func notifKind(name string) int {
 }
 
 // GATE-SUBSCRIBER / GATE-OBSERVER
-func ruleGates() check.Rule {
+func ruleGates() check.Rule { return ruleGatesOf(true) }
+
+// ruleGatesOf checks subscriberImpl's gates and, when withObserver is set, observerImpl's.
+func ruleGatesOf(withObserver bool) check.Rule {
 	return check.Rule{
 		Name: "GATE",
 		Doc:  "in subscriberImpl every call through the destination field, and in observerImpl every call of a try* helper (the only places that invoke the user callbacks), is dominated by the open-status test (Next: atomic load == 0) or by winning the compare-and-swap 0 -> k != 0 (terminals); helpers are followed to all their call sites",
@@ -79,6 +82,9 @@ func ruleGates() check.Rule {
 			}
 			// observerImpl: call sites of try*
 			for _, fd := range methodsOf(p, "observerImpl") {
+				if !withObserver {
+					break
+				}
 				if fd.Body == nil {
 					continue
 				}
